@@ -237,9 +237,11 @@ M("c05-quotable-no-colon", "C05", "C05/PARAM-MODEL",
   (P, 'QUOTABLE = re.compile("[,;: ’\']")', 'QUOTABLE = re.compile("[,; ’\']")'))
 M("c05-dquote-keeps-quote", "C05", "C05/PARAM-MODEL",
   (P, "    val = val.replace('\"', \"'\")\n", ""))
-M("c05-no-token-check", "C05", "C05/LINE-MODEL",
+# leniency only (the reader accepts more): no property requires rejection, so silence is right
+M("c05-no-token-check", "C05", "silent",
   (P, "            validate_token(name)\n            if not value_split:", "            if not value_split:"))
-M("c05-param-name-unvalidated", "C05", "C05/PARAM-MODEL",
+# leniency only (the reader accepts more): no property requires rejection, so silence is right
+M("c05-param-name-unvalidated", "C05", "silent",
   (P, "                validate_token(key)\n", ""))
 M("c05-name-allows-colon", "C05", "C05/TOKEN",
   (P, "NAME = re.compile(r'[\\w.-]+')", "NAME = re.compile(r'[\\w.:-]+')"))
